@@ -201,8 +201,12 @@ func genProgram(r *hk.Rand) *program {
 				f.Kind = "seekcloser" // SetFileReader with an io.ReadSeeker whose Close is a no-op
 			case k < 82:
 				f.Kind = "reader" // SetFileReader(strings.Reader)
-			case k < 90:
+			case k < 87:
 				f.Kind = "buffer" // SetFileReader(bytes.Buffer): cannot be rewound
+			case k < 92:
+				f.Kind = "customseek" // SetFileUpload, GetFileContent shares one io.ReadSeeker
+			case k < 96:
+				f.Kind = "customplain" // SetFileUpload, GetFileContent shares one plain reader
 			default:
 				f.Kind = "osfile" // SetFileReader(*os.File)
 			}
@@ -211,6 +215,7 @@ func genProgram(r *hk.Rand) *program {
 		if r.Chance(50) {
 			sh.MPBoundary = "XXboundaryXX"
 		}
+		sh.Chunked = r.Chance(30)
 	}
 	if sh.BodyKind != "none" && sh.BodyKind != "multipart" {
 		sh.Body = hk.Pick(r, bodies)
@@ -267,11 +272,12 @@ func genUploadProgram(r *hk.Rand) *program {
 	sh := &p.Shape
 	sh.Method = hk.Pick(r, []string{"POST", "PUT", "PATCH"})
 	sh.BodyKind, sh.Body, sh.MPFiles = "multipart", "", nil
-	kinds := []string{"bytes", "path", "seekcloser", "reader", "buffer", "osfile"}
+	kinds := []string{"bytes", "path", "seekcloser", "reader", "customseek", "customplain", "buffer", "osfile"}
+	sh.Chunked = r.Chance(40)
 	for i, nf := 0, r.Range(1, 3); i < nf; i++ {
 		k := hk.Pick(r, kinds)
 		if r.Chance(50) {
-			k = hk.Pick(r, kinds[:4]) // replayable kinds more often, so that all attempts happen
+			k = hk.Pick(r, kinds[:5]) // replayable kinds more often, so that all attempts happen
 		}
 		sh.MPFiles = append(sh.MPFiles, mpFile{Param: hk.Pick(r, []string{"file", "doc", "img"}), Name: hk.Pick(r, []string{"a.txt", "b.bin"}), Content: hk.Pick(r, bodies), Kind: k})
 	}
